@@ -1176,3 +1176,65 @@ def sp_is_integer(I, st, args, kwargs):
     if isinstance(v, VInt):
         return VBool(z3.BoolVal(True))
     return VBool(z3.IsInt(to_term(v, 'real')))
+
+
+# ----------------------------------------------------------------------------- weighted occurrence sums (C15 batch updates): linear recursions
+_WCNT: dict = {}
+
+
+def wcnt_fn(ek):
+    """wcnt(A, v, d, m) = sum over i < m of (d if A[i] == v else 0);  wtot(d, m) = d * m written as a linear recursion."""
+    from .sym import sort_of, kind_name
+    if ek in _WCNT:
+        return _WCNT[ek]
+    es = sort_of(ek)
+    nm = 'wcnt_' + kind_name(ek)
+    arr = z3.ArraySort(I_, es)
+    F = z3.Function(nm, arr, es, I_, I_, I_)
+    A = z3.Const('A_' + nm, arr)
+    v = z3.Const('v_' + nm, es)
+    d = z3.Int('d_' + nm)
+    axiom(nm + '.base', z3.ForAll([A, v, d], F(A, v, d, 0) == 0, patterns=[F(A, v, d, 0)]), nm)
+    axiom(nm + '.step', z3.ForAll([A, v, d, _m], z3.Implies(_m > 0, F(A, v, d, _m) == F(A, v, d, _m - 1) + z3.If(A[_m - 1] == v, d, 0)),
+                                  patterns=[F(A, v, d, _m)]), nm)
+    lemma(nm + '_nonneg',
+          z3.ForAll([A, v, d, _m], z3.Implies(z3.And(d >= 0, _m >= 0), F(A, v, d, _m) >= 0), patterns=[F(A, v, d, _m)]),
+          [(lab, z3.ForAll([A, v, d], z3.Implies(d >= 0, f))) for lab, f in _induction(lambda n: F(A, v, d, n) >= 0, _n)])
+    _WCNT[ek] = F
+    return F
+
+
+WTOT = z3.Function('wtot', I_, I_, I_)
+_wd = z3.Int('wtot_d')
+axiom('wtot.base', z3.ForAll([_wd], WTOT(_wd, 0) == 0, patterns=[WTOT(_wd, 0)]), 'wtot')
+axiom('wtot.step', z3.ForAll([_wd, _m], z3.Implies(_m > 0, WTOT(_wd, _m) == WTOT(_wd, _m - 1) + _wd), patterns=[WTOT(_wd, _m)]), 'wtot')
+
+
+@spec('wcnt')
+def sp_wcnt(I, st, args, kwargs):
+    a, v, d, m = args
+    if a.arr is None:
+        return VInt(0)
+    return VInt(wcnt_fn(a.ek)(a.arr, to_term(v, a.ek), to_term(d, 'int'), to_term(m, 'int')))
+
+
+@spec('wtot')
+def sp_wtot(I, st, args, kwargs):
+    return VInt(WTOT(to_term(args[0], 'int'), to_term(args[1], 'int')))
+
+
+@spec('mkcounter')
+def sp_mkcounter(I, st, args, kwargs):
+    """mkcounter(lambda y: <int expr>, "Kind"): the counter whose value at y is the expression (a ghost argument for callee contracts)."""
+    import ast as _ast
+    from .sym import VDict, parse_kind, sort_of, from_term
+    raise EngineError('mkcounter is handled syntactically by the spec evaluator')
+
+
+_wm = z3.Int('wtot_m')
+lemma('wtot_monotone',
+      z3.ForAll([_wd, _wm, _m], z3.Implies(z3.And(_wd >= 0, _wm >= 0, _wm <= _m), z3.And(WTOT(_wd, _wm) >= 0, WTOT(_wd, _wm) <= WTOT(_wd, _m))),
+                patterns=[z3.MultiPattern(WTOT(_wd, _wm), WTOT(_wd, _m))]),
+      [('nonneg.' + lab, z3.ForAll([_wd], z3.Implies(_wd >= 0, f))) for lab, f in _induction(lambda n: WTOT(_wd, n) >= 0, _n)] +
+      [('mono.' + lab, z3.ForAll([_wd, _wm], z3.Implies(z3.And(_wd >= 0, _wm >= 0), f))) for lab, f in
+       _induction(lambda n: WTOT(_wd, _wm) <= WTOT(_wd, _wm + n), _n)])
